@@ -23,6 +23,16 @@ namespace vu::pos
       return ( std::size_t( Rs::match( in ) ) + ... );
    }
 
+   // combinators that advance the cursor themselves (until skips the bytes its condition does not match)
+   template< typename Input >
+   std::size_t combinators( Input& in )
+   {
+      using A = string< '*', '/' >;
+      return std::size_t( normal< until< A > >::template match< apply_mode::action, rewind_mode::required, nothing, normal >( in ) )
+             + std::size_t( normal< until< eolf > >::template match< apply_mode::action, rewind_mode::optional, nothing, normal >( in ) )
+             + std::size_t( normal< until< A, any > >::template match< apply_mode::action, rewind_mode::required, nothing, normal >( in ) );
+   }
+
    template< typename Input >
    std::size_t all_rules( Input& in )
    {
@@ -73,6 +83,6 @@ namespace vu::pos
 
    inline std::size_t all_pos( In_lf& a, In_cr& b, In_crlf& c, In_lf_crlf& d, In_cr_crlf& e )
    {
-      return all_rules( a ) + all_rules( b ) + all_rules( c ) + all_rules( d ) + all_rules( e ) + input_ops( a ) + input_ops( b ) + input_ops( c ) + input_ops( d ) + input_ops( e ) + rematches( d ) + line_ops( a ) + line_ops( b ) + line_ops( c ) + line_ops( d ) + line_ops( e );
+      return combinators( a ) + combinators( b ) + combinators( c ) + combinators( d ) + combinators( e ) + all_rules( a ) + all_rules( b ) + all_rules( c ) + all_rules( d ) + all_rules( e ) + input_ops( a ) + input_ops( b ) + input_ops( c ) + input_ops( d ) + input_ops( e ) + rematches( d ) + line_ops( a ) + line_ops( b ) + line_ops( c ) + line_ops( d ) + line_ops( e );
    }
 }  // namespace vu::pos
